@@ -1,11 +1,13 @@
 //! Checks that only need `astria-merkle` and `astria-core`: C08, and the core-decoder part of C17.
 
 mod c08;
+mod c17;
 
 fn main() {
     let (id, args) = vcommon::split_args();
     match id.as_str() {
         "C08" => c08::run(&args),
+        "C17" => c17::run(&args),
         other => {
             eprintln!("vlight does not host property {other}");
             std::process::exit(2);
